@@ -18,7 +18,7 @@
    line): explored with the independent renderer, and the reader model must agree with the library on each such file. *)
 From Coq Require Import List QArith Lia.
 Import ListNotations.
-From QSX Require Import IO.Num IO.NumSound IO.Bounds IO.Ranges IO.Equiv IO.Lex IO.LpWrite IO.LpRead IO.LpTok IO.LpExpr IO.LpRows IO.LpBounds IO.LpFinish IO.LpRoundtrip.
+From QSX Require Import IO.Num IO.NumSound IO.Bounds IO.Ranges IO.Equiv IO.Lex IO.LpWrite IO.LpRead IO.LpTok IO.LpExpr IO.LpRows IO.LpBounds IO.LpFinish IO.LpRoundtrip IO.LpTotal.
 Local Open Scope Q_scope.
 
 Theorem C10_read_denotes :
@@ -99,3 +99,9 @@ Theorem C10_lp_written_file_partial :
   exists P', read_lp true M (write_lp M P) = Some P' /\ equiv_by_name (to_nlp P) (to_nlp P') = true.
 Proof. exact lp_roundtrip. Qed.
 Print Assumptions C10_lp_written_file_partial.
+
+(* the LP reader model is a total function of the lines: the answer "fuel exhausted" is unreachable for every input
+   (every iteration of its four loops consumes at least one byte); also the termination half of C11 for this reader *)
+Theorem C10_lp_reader_total : forall strict M ls, read_lp_res strict M ls <> PrFuel.
+Proof. exact fuel_suffices. Qed.
+Print Assumptions C10_lp_reader_total.
